@@ -354,7 +354,10 @@ def _case(draw, maxdepth):
         for cls, pool in RENAMES.items():
             if draw(st.booleans()):
                 rename[cls] = draw(st.sampled_from(pool))
-    return {"model": model, "stages": stages, "rename": rename}
+    # some return annotations are only PARTIALLY quoted: Iterable['Trk'] / Box['Jet'] (a forward reference inside a real generic)
+    partial = sorted(f"{c}.{n}" for c, ms in model.items() for n, r in ms
+                     if r is not None and r[0] in ("it", "c") and (r[0] == "it" or r[2]) and draw(st.integers(0, 2)) == 0)
+    return {"model": model, "stages": stages, "rename": rename, "partial": partial}
 
 
 def strategy(tier):
@@ -430,7 +433,16 @@ def _tvars(t):
     return out
 
 
-def build(model, rename=None):
+def ann_partial(t):
+    """like ann(), but the arguments of the outermost generic are written as quoted names"""
+    if t[0] == "it":
+        return f"Iterable[{ann(t[1])!r}]"
+    if t[0] == "c" and t[2]:
+        return t[1] + "[" + ", ".join(repr(ann(a)) for a in t[2]) + "]"
+    return repr(ann(t))
+
+
+def build(model, rename=None, partial=()):
     import re
 
     from func_adl import ObjectStream, register_func_adl_os_collection
@@ -449,7 +461,10 @@ def build(model, rename=None):
         body = []
         for name, ret in model.get(cls, []):
             a = ann(ret)
-            body.append(f"    def {name}(self){' -> ' + repr(a) if a else ''}: ...")
+            if a and f"{cls}.{name}" in partial:
+                body.append(f"    def {name}(self) -> {ann_partial(ret)}: ...")
+            else:
+                body.append(f"    def {name}(self){' -> ' + repr(a) if a else ''}: ...")
         src.append("\n".join(body) if body else "    pass")
     # string annotations (forward references / `from __future__ import annotations` style) next to plain ones
     src.append("@dataclasses.dataclass\nclass Info:\n    x: int\n    w: 'float'\n    trk: 'Trk'\n    trks: 'Iterable[Trk]'")
@@ -582,7 +597,13 @@ def check(case) -> Result:
         async def execute_result_async(self, a, title=None):
             return a
 
-    ns = build(case["model"], case.get("rename"))
+    # typing caches generic aliases by their arguments: `Iterable['Trk']` written in two generated modules would be ONE object
+    # whose forward reference stays resolved to the first module's class - start every case with empty typing caches
+    import typing
+
+    for clear in getattr(typing, "_cleanups", []):
+        clear()
+    ns = build(case["model"], case.get("rename"), case.get("partial") or ())
     try:
         return _check(case, ns, DS)
     finally:
@@ -602,6 +623,8 @@ def _check(case, ns, DS) -> Result:
         r.labels.append("generic/inheritance-edge")
     if case.get("rename"):
         r.labels.append("class-named-like-typing")
+    if case.get("partial"):
+        r.labels.append("partially-quoted-annotation")
     final = want[-1] if want else ["any"]
     r.labels.append("final:" + (final[0] if final[0] != "c" else "class"))
     r.nontrivial = final != ["any"] and (steps >= 2 or edge)
